@@ -231,7 +231,7 @@ class PFlow(BaseRoutine):
 
         if system.dae.m == 0:
             logger.error("Loaded case contains no power flow element.")
-            system.exit_code = 1
+            system.exit_code += 1
             return False
 
         method = self.config.method.lower()
@@ -268,7 +268,7 @@ class PFlow(BaseRoutine):
             if self.config.report:
                 system.PFlow.report()
 
-        system.exit_code = 0 if self.converged else 1
+        system.exit_code += 0 if self.converged else 1
         return self.converged
 
     def report(self):
